@@ -32,6 +32,8 @@ SIG8C = "CMRF._gradient|callable-location:warns-returns-None"
 SIG29 = "Gaussian._gradient|prec-vector:dot-product-scalar-returned"
 SIG30 = "ModifiedHalfNormal._gradient|dim>1:matrix-returned"
 SIGNAN = "GMRF.logpdf|order2-neumann:logd-NaN"
+SIGIGP = "InverseGamma._gradient|nonpositive-shape-or-scale:finite-gradient-where-logd-NaN"
+SIGSLP = "SmoothedLaplace.gradient|nonpositive-scale:finite-gradient-where-logd-NaN"
 
 
 # ------------------------------------------------------------------------------------------------
@@ -388,7 +390,18 @@ def _w_gmrf_nan():
     return None, "GMRF(ones(n), 1.5, neumann, order=2), n = 5,6,7: logd finite on this run (%s)" % (["%.3g" % v for v in seen],)
 
 
-WITNESS = {SIGNAN: _w_gmrf_nan, SIG7: _w_cmrf, SIG8G: lambda: _w_none("gmrf"), SIG8A: lambda: _w_none("gauss"), SIG8L: lambda: _w_none("lognormal"),
+def _w_invalid_par(which):
+    from cuqi.distribution import InverseGamma, SmoothedLaplace
+    x = np.array([0.5, 1.5])
+    D = InverseGamma(2.0, 0.0, -1.0, geometry=2) if which == "ig" else SmoothedLaplace(0.0, -1.0, 0.01, geometry=2)
+    o = observe(lambda: D.gradient(x))
+    v = logd_of(D)(x)
+    fails = o[0] == "vec" and not math.isfinite(v)
+    what = "InverseGamma(2, 0, scale=-1)" if which == "ig" else "SmoothedLaplace(0, scale=-1, 0.01)"
+    return ("%s: logd = %r but gradient() returns the finite vector %r" % (what, v, o[1])) if fails else None, "%s: logd %r, gradient -> %s" % (what, v, o[0])
+
+
+WITNESS = {SIGIGP: lambda: _w_invalid_par("ig"), SIGSLP: lambda: _w_invalid_par("sl"), SIGNAN: _w_gmrf_nan, SIG7: _w_cmrf, SIG8G: lambda: _w_none("gmrf"), SIG8A: lambda: _w_none("gauss"), SIG8L: lambda: _w_none("lognormal"),
            SIG8C: lambda: _w_none("cmrf"), SIG29: _w_prec_vector, SIG30: _w_mhn}
 
 _STATE = {}
@@ -476,19 +489,23 @@ def make_geometry(spec, n):
         return Image2D((spec[1], spec[1]))
     if k == "cont2d":
         return Continuous2D((spec[1], spec[1]))
-    if k in ("mapped+grad", "mapped", "mapped+grad+imap"):
+    if k in ("mapped+grad", "mapped", "mapped+grad+imap", "mapped+imap"):
         ga, gb, gc = [float(F(a)) for a in spec[1:4]]
 
-        class _MG(MappedGeometry):
-            pass
-        if k == "mapped+grad+imap":
+        # the class users instantiate (type-based dispatch sees MappedGeometry itself); a subclass that DEFINES the method is the
+        # other declaration style of "a geometry that supplies its own derivative" (chosen when gc has an even numerator)
+        class _MGsub(MappedGeometry):
+            def gradient(self, direction, wrt):
+                return direction * (2 * ga * wrt + gb)
+        _MG = _MGsub if (k in ("mapped+grad", "mapped+grad+imap") and F(spec[3]).numerator % 2 == 0) else MappedGeometry
+        if k in ("mapped+grad+imap", "mapped+imap"):
             # affine map (ga = 0) WITH its inverse: fun2par is available, so a route that forgets the geometry's own
             # derivative and converts the function-space vector back with fun2par returns a (wrong) vector, not an error
             assert ga == 0 and gb != 0
             g = _MG(Continuous1D(n), map=lambda x: gb * x + gc, imap=lambda u: (u - gc) / gb)
         else:
             g = _MG(Continuous1D(n), map=lambda x: ga * x * x + gb * x + gc)
-        if k != "mapped":
+        if k not in ("mapped", "mapped+imap") and _MG is MappedGeometry:
             g.gradient = lambda direction, wrt: direction * (2 * ga * wrt + gb)
         return g
     if k == "step":
@@ -751,9 +768,20 @@ def build_sum(meta):
         parts[-1].name = "x"
         order = meta.get("order") or list(range(len(parts)))
         parts = [parts[i] for i in order]
-        if meta["fam"] == "post":
-            return Posterior(parts[0], parts[-1]), comps
-        return MultipleLikelihoodPosterior(*parts), comps
+        ph = meta.get("post_hist")
+        if ph:
+            # the posterior is built and evaluated with ANOTHER prior mean; then the prior object it holds is modified in place
+            parts[-1].mean = fa(ph["prior_mean_init"])
+        Pobj = Posterior(parts[0], parts[-1]) if meta["fam"] == "post" else MultipleLikelihoodPosterior(*parts)
+        if ph:
+            x0 = fa(ph["x0"])
+            observe(lambda: Pobj.gradient(x0))
+            try:
+                logd_of(Pobj)(x0)
+            except Exception:
+                pass
+            Pobj.prior.mean = mean_value(named[-1]["mean"])
+        return Pobj, comps
     prior = build(named[-1])[0]
     prior.name = "x"
     dd = [build_lik_dist(p) for p in named[:-1]]
@@ -914,6 +942,7 @@ def run(ctx):
     cases += gen_gallery(ctx, st)
     cases += gen_large(ctx, st)
     cases += gen_history(ctx, st)
+    cases += gen_falsy(ctx, st)
     return Result(cases=cases, rule=RULE,
                   extra={"repair_state": {s: ("repaired" if v else "defect present") for s, v in st.items()}},
                   assumptions=[
@@ -1102,8 +1131,9 @@ def gen_lik(ctx, st):
                 out.append(case_lik(lik_meta(rng, ms, "cov", ptype, lognormal=True), st))
     # refusals: geometries without a derivative, models without a gradient, non-identity range geometry
     for kind in ("matrix", "jac", "grad"):
-        for dom in ("mapped", "step", "kl"):
-            d = rand_mapped(rng, grad=False) if dom == "mapped" else (dom,)
+        for dom in ("mapped", "mapped+imap", "step", "kl"):
+            # mapped+imap: fun2par exists but no derivative is supplied -- still a refusal, not fun2par of the function-space vector
+            d = rand_mapped(rng, grad=False) if dom == "mapped" else ((["mapped+imap"] + rand_mapped_imap(rng)[1:]) if dom == "mapped+imap" else (dom,))
             ms = rand_model(rng, kind, d)
             out.append(case_lik(lik_meta(rng, ms, "cov", "scalar"), st, expect_refusal=True))
         ms = rand_model(rng, kind, ("default",), ran=rand_mapped(rng, grad=False))
@@ -1146,7 +1176,7 @@ def case_lik(meta, st, expect_refusal=False):
     th, th1 = fa(meta["x"]), fa(meta["x1"])
     o = observe(lambda: obj.gradient(th))
     pcoq, P = coq_gparam({"form": meta["form"], "ptype": meta["ptype"], "n": ms["m"], "param": meta["param"]})
-    if expect_refusal or ms["kind"] == "nograd" or ms["dom"][0] in ("mapped", "step", "kl") or ms["ran"][0] != "default":
+    if expect_refusal or ms["kind"] == "nograd" or ms["dom"][0] in ("mapped", "mapped+imap", "step", "kl") or ms["ran"][0] != "default":
         # DECISION: no derivative available => the call must raise
         expr = "match %s with ObsRaised => true | _ => false end" % cobs(o)
         d, sig = verdict_case(meta, o, obj, th, dim)
@@ -1165,7 +1195,7 @@ def case_lik(meta, st, expect_refusal=False):
     expr = "check_lik %s %s %s %s %s %s %s %s %s %s %s %s %s %s" % (
         cbool(st[SIG29]), FORM_COQ[meta["form"]], pcoq, cqm(P), cqm([[F(a) for a in r] for r in ms["A"]]),
         cqm([[F(a) for a in r] for r in ms["B"]]), cqc(ga), cqc(gb), cqc(gc), cqv(data), cqv(uv(meta["x"])), cqv(uv(meta["x1"])), cobs(o), cq(dobs))
-    d, sig = verdict_case(meta, o, obj, th, dim)
+    d, sig = verdict_case(meta, o, obj, th, dim, kw="x")
     return Case(expr=expr, meta=meta, cell=meta["cellname"], kind="EXACT", impl_fail=d, signature=sig)
 
 
@@ -1297,7 +1327,7 @@ def case_sum(meta, st):
     f = logd_of(obj)
     dtot = f(x1) - f(x)
     dparts = [flogd(c)(x1) - v for c, v in zip(comps, pl)]
-    d, sig = verdict_case(meta, o, obj, x, dim, fd=bool(meta.get("fd_parts")))
+    d, sig = verdict_case(meta, o, obj, x, dim, fd=bool(meta.get("fd_parts")), kw="x")
     # keep-alive: evaluating the posterior must not have changed any factor, and a second call must agree with the first
     po2 = [observe(lambda c=c: c.gradient(x)) for c in comps]
     o2 = observe(lambda: obj.gradient(x))
@@ -1508,8 +1538,10 @@ def gen_sep(ctx, st):
     return out
 
 
-OOS_SIDES = {"Beta": ["low", "high", "at-low", "at-high"], "InvGamma": ["low", "at-low"], "MHN": ["low", "at-low"],
-             "LognormalDiag": ["low", "at-low"], "Uniform": ["low", "high"], "Cauchy": ["scale"]}
+OOS_SIDES = {"Beta": ["low", "high", "at-low", "at-high", "par0", "par1"], "InvGamma": ["low", "at-low", "par0", "par2"], "MHN": ["low", "at-low"],
+             "LognormalDiag": ["low", "at-low"], "Uniform": ["low", "high", "on-low", "on-high"], "Cauchy": ["scale"], "SmoothedLaplace": ["par1"]}
+# invalid (non-positive) parameters for which the object's logd is not a number
+OOS_FINDING = {("InvGamma", "par0"): SIGIGP, ("InvGamma", "par2"): SIGIGP, ("SmoothedLaplace", "par1"): SIGSLP}
 
 
 def gen_oos(ctx, st):
@@ -1525,7 +1557,13 @@ def gen_oos(ctx, st):
                     a, b, c = sep_parlists(meta)
                     x = uv(meta["x"])
                     i = rng.randrange(n)
-                    if side == "scale":
+                    if side.startswith("par"):
+                        k = int(side[3:])
+                        if meta["pars"][k][0] == "s":
+                            meta["pars"][k] = ["s", P_(-F(meta["pars"][k][1]) if r % 2 else 0)]
+                        else:
+                            pp = uv(meta["pars"][k][1]); pp[i] = -pp[i] if r % 2 == 0 else Fraction(0); meta["pars"][k] = ["v", pv(pp)]
+                    elif side == "scale":
                         if not vec:
                             meta["pars"][1] = ["s", P_(-F(meta["pars"][1][1]))]
                         else:
@@ -1533,7 +1571,7 @@ def gen_oos(ctx, st):
                     else:
                         lo = {"Beta": Fraction(0), "InvGamma": b[i], "MHN": Fraction(0), "LognormalDiag": Fraction(0), "Uniform": a[i]}[sf]
                         hi = {"Beta": Fraction(1), "Uniform": b[i]}.get(sf)
-                        x[i] = {"low": lo - Fraction(1, 4), "at-low": lo, "high": (hi or 0) + Fraction(1, 4), "at-high": hi}[side]
+                        x[i] = {"low": lo - Fraction(1, 4), "at-low": lo, "high": (hi or 0) + Fraction(1, 4), "at-high": hi, "on-low": lo, "on-high": hi}[side]
                     meta["x"] = pv(x)
                     meta["oos"] = side
                     meta["cellname"] = "oos/%s/%s/%s-params" % (sf, side, "vector" if vec else "scalar")
@@ -1546,6 +1584,21 @@ def case_oos(meta, st):
     x = fa(meta["x"])
     o = observe(lambda: obj.gradient(x))
     d = None
+    if meta["oos"] in ("on-low", "on-high"):
+        # closed box: a point ON the boundary belongs to the support (logd finite), the gradient is the zero vector
+        v = logd_of(obj)(x)
+        if not (o[0] == "vec" and math.isfinite(v) and not np.any(o[1])):
+            d = "Uniform at a boundary point %s: logd = %r, gradient -> %r" % (x.tolist(), v, o)
+        return Case(expr="match %s with ObsVec _ => true | _ => false end" % cobs(o), meta=meta, cell=meta["cellname"], kind="DECISION",
+                    impl_fail=d, signature=("C03|%s|%s" % (meta["cellname"], o[0])) if d else "")
+    fsig = OOS_FINDING.get((meta["sfam"], meta["oos"]))
+    if fsig and not st[fsig] and o[0] == "vec":
+        # known defect class: modelled as it is (a finite vector comes back), reported under its signature if logd is not a number
+        v = logd_of(obj)(x)
+        d = None if math.isfinite(v) else "%s with a non-positive %s: logd = %r but gradient() returns the finite vector %s" % (
+            meta["sfam"], SEP_ATTRS[meta["sfam"]][int(meta["oos"][3:])], v, np.round(o[1], 6).tolist())
+        return Case(expr="match %s with ObsVec _ => true | _ => false end" % cobs(o), meta=meta, cell=meta["cellname"], kind="DECISION",
+                    impl_fail=d, signature=fsig if d else "")
     if o[0] not in ("nan", "raised"):
         d = "%s: a finite %s is returned at %s, outside the support (%s)" % (meta["sfam"], o[0], x.tolist(), meta["oos"])
     elif o[0] == "nan":
@@ -1894,15 +1947,24 @@ def gen_history(ctx, st):
             out += case_sep(meta, st)
     for kind in MODEL_KINDS:
         for (form, fin) in (("cov", "matrix"), ("prec", "vector"), ("sqrtprec", "scalar"), ("sqrtcov", "vector")):
-            if not ctx.thorough and rng.random() < 0.5:
+            hk = MODEL_KINDS.index(kind) + len(form)
+            if not ctx.thorough and hk % 2:
                 continue
-            ms = rand_model(rng, kind, rng.choice([("default",), ("cont1d",)]))
+            ms = rand_model(rng, kind, [("default",), ("cont1d",)][hk % 2 if ctx.thorough else (hk // 2) % 2])
             meta = lik_meta(rng, ms, form, fin)
             m = ms["m"]
             meta["cellname"] = "history/lik/%s/%s-%s" % (kind, form, fin)
             meta["hist"] = {"init": {"param": gparam(form, rng.choice(["scalar", "vector", "matrix"]), m), "data": pv(rvec(rng, m))},
                             "steps": [["data", pv(rvec(rng, m))]][: rng.randint(0, 1)], "x0": pv(rvec(rng, ms["n"]))}
             out.append(case_lik(meta, st))
+    for fam, liks in (("post", "R"), ("mlp", "RU"), ("mlp", "RR")):
+        n = rng.randint(2, 3)
+        parts = [lik_meta(rng, rand_model(rng, rng.choice(MODEL_KINDS), ("default",), n=n), "cov", "vector") if ch == "R"
+                 else rand_user_factor(rng, "ulik", n, grad=True, geom="none") for ch in liks]
+        prior = {"fam": "gauss", "form": "cov", "ptype": "vector", "param": pv([rpos(rng) for _ in range(n)]), "n": n, "mean": ["v", pv(rvec(rng, n, nonzero=True))]}
+        out.append(case_sum({"fam": fam, "parts": parts + [prior], "n": n, "x": pv(rvec(rng, n, -2, 2)), "x1": pv(rvec(rng, n, -2, 2)), "style": "direct",
+                             "post_hist": {"prior_mean_init": pv(rvec(rng, n)), "x0": pv(rvec(rng, n))},
+                             "cellname": "history/%s/factors:%s/prior-mean-reassigned" % (fam, liks)}, st))
     for r in range(ctx.n(2, 8)):
         n = rng.randint(2, 3)
         meta = {"fam": "lognormal-full", "n": n, "mean": pv(rvec(rng, n, -1, 1, nonzero=True)), "cov": pm(rand_spd(rng, n)),
@@ -1911,6 +1973,53 @@ def gen_history(ctx, st):
                 "hist": {"init": {"mean": pv(rvec(rng, n, -1, 1)), "cov": pm(rand_spd(rng, n))}, "steps": [["mean", pv(rvec(rng, n, -1, 1))]][: r % 2],
                          "x0": pv([Fraction(rng.randint(2, 24), 8) for _ in range(n)])}}
         out.append(case_lognormal_full(meta, st))
+    return out
+
+
+# ---- falsy but legitimate values: zero means / locations / data / points / constants ----------------------------------------
+def gen_falsy(ctx, st):
+    rng = ctx.rng
+    out = []
+    Z = lambda n: pv([Fraction(0)] * n)
+    for r in range(ctx.n(1, 3)):
+        n = rng.randint(2, 3)
+        for form, ptype in (("cov", "vector"), ("prec", "matrix"), ("sqrtprec", "scalar"), ("sqrtcov", "generalmatrix")):
+            val, _, _ = gauss_param(rng, form, ptype, n)
+            for mean, x in ((["s", P_(0)], rvec(rng, n)), (["v", Z(n)], rvec(rng, n)), (["v", pv(rvec(rng, n, nonzero=True))], [Fraction(0)] * n),
+                            (["s", P_(0)], [Fraction(0)] * n)):
+                meta = {"fam": "gauss", "form": form, "ptype": ptype, "param": raw_param(val, ptype), "n": n, "mean": mean, "x": pv(x), "x1": pv(rvec(rng, n)),
+                        "cellname": "falsy/gauss/%s-%s/mean-%s" % (form, ptype, "zero" if F(mean[1]) == 0 or mean[0] == "v" and all(F(a) == 0 for a in mean[1]) else "nonzero+x-zero")
+                        if mean[0] == "s" else "falsy/gauss/%s-%s/%s" % (form, ptype, "mean-zero-vector" if all(F(a) == 0 for a in mean[1]) else "x-zero")}
+                out.append(case_gauss_prior(meta, st))
+        for bc in ("zero", "periodic", "neumann"):
+            m = rng.randint(3, 4)
+            out.append(case_gmrf({"fam": "gmrf", "bc": bc, "order": rng.choice([0, 1, 2]), "pd": 1, "n": m, "N": m, "geo2": None, "mean": ["s", P_(0)],
+                                  "prec": P_(rpos(rng)), "x": Z(m), "x1": pv(rvec(rng, m, -2, 2)), "cellname": "falsy/gmrf/%s" % bc}, st))
+            out += case_cmrf({"fam": "cmrf", "bc": bc, "pd": 1, "n": m, "N": m, "geo2": None, "loc": ["s", P_(0)], "scale": P_(rpos(rng)),
+                              "x": Z(m), "x1": pv(rvec(rng, m, -2, 2)), "cellname": "falsy/cmrf/%s" % bc}, st)
+        for sf, k in (("Cauchy", 0), ("InvGamma", 1), ("SmoothedLaplace", 0), ("Uniform", 0)):
+            meta = sep_meta(rng, sf, n, False)
+            meta["pars"][k] = ["s", P_(0)]
+            if sf == "Uniform":
+                meta["pars"][1] = ["s", P_(rpos(rng))]
+            meta["x"], meta["x1"] = pv(sep_point(rng, meta)), pv(sep_point(rng, meta))
+            if sf in ("Cauchy", "SmoothedLaplace"):
+                meta["x"] = Z(n)
+            meta["cellname"] = "falsy/sep/%s-zero-%s" % (sf, SEP_ATTRS[sf][k])
+            out += case_sep(meta, st)
+        for kind in ("matrix", "jac", "pde-grad"):
+            lm = lik_meta(rng, rand_model(rng, kind, ("default",), n=n), "cov", "vector")
+            lm["data"], lm["x"] = Z(lm["model"]["m"]), Z(n)
+            lm["cellname"] = "falsy/lik/%s/data-zero-theta-zero" % kind
+            out.append(case_lik(lm, st))
+        # posterior with a user factor centred at 0 and a zero-mean prior, evaluated at 0
+        uf = rand_user_factor(rng, "ulik", n, grad=True, geom="cont1d")
+        uf["c"] = Z(n)
+        prior = {"fam": "gauss", "form": "cov", "ptype": "scalar", "param": P_(rpos(rng)), "n": n, "mean": ["s", P_(0)]}
+        out.append(case_sum({"fam": "post", "parts": [uf, prior], "n": n, "x": Z(n), "x1": pv(rvec(rng, n)), "style": "direct",
+                             "cellname": "falsy/post/user-factor-at-zero"}, st))
+        out.append(case_sum({"fam": "mlp", "parts": [lik_meta(rng, rand_model(rng, "matrix", ("default",), n=n), "cov", "scalar"), uf, prior], "n": n,
+                             "x": Z(n), "x1": pv(rvec(rng, n)), "style": "direct", "cellname": "falsy/mlp/zero-point"}, st))
     return out
 
 
@@ -1964,8 +2073,8 @@ def gen_large(ctx, st):
     rng = ctx.rng
     out = []
     for kind in LARGE_KINDS:
-        for r in range(ctx.n(1, 3)):
-            meta = {"fam": "large", "kind": kind, "n": rng.choice([76, 80, 90]) if not kind == "gmrf-2d" else 81, "seed": rng.randint(0, 10 ** 6),
+        for r in range(ctx.n(2, 3)):          # r = 0: first dimension above config.MIN_DIM_SPARSE (76); r = 1: exactly at the threshold (75)
+            meta = {"fam": "large", "kind": kind, "n": [76, 75, 90][r % 3] if not kind == "gmrf-2d" else 81, "seed": rng.randint(0, 10 ** 6),
                     "bc": rng.choice(["zero", "periodic", "neumann"]), "order": rng.choice([0, 1]) if True else 2,
                     "cellname": "large/" + kind}
             out.append(case_large(meta))
